@@ -6,8 +6,12 @@ Oracle (the property statement, clause by clause):
   * never a sanitizer report (exit 98/99) or a signal;
   * exit 0  ⇒ the output image exists and `rdsquashfs -d` reads all of it;
   * exit ≠ 0 ⇒ something was printed on stderr and no output file is left.
-Inputs whose members *declare* more than BIG bytes (sparse real size, …) are listed by the tar harness only and not
-handed to the packer: packing time is proportional to the declared size, which is not what C07 is about.
+Mutated archives whose members *declare* more than BIG (32 MiB) bytes (sparse real size, …) are listed by the tar
+harness only and not handed to the packer, to keep the run short: packing time is proportional to the declared size.
+That this proportionality is itself a violation of "terminates within bounded time" (a 1.5 KiB archive may declare
+2^60 bytes) is covered separately and explicitly: `run_tar_declared` hands archives declaring 2^40, 2^50 and 2^60
+bytes to tar2sqfs under a CPU-time limit (findings KEY_DECLARED_BEYOND, KEY_DECLARED_SIZE), and `run_tar_content`
+packs well-formed sparse members of up to several MiB with every block size and compares the content read back.
 """
 import base64, bz2, gzip, io, lzma, os, resource, shutil, subprocess, tarfile, zlib
 from concurrent.futures import ThreadPoolExecutor
